@@ -14,6 +14,8 @@ use std::collections::BTreeSet;
 
 pub struct C10;
 
+const MULT: [usize; 7] = [5, 7, 9, 255, 256, 257, 300];
+
 impl Property for C10 {
     fn id(&self) -> &'static str {
         "C10"
@@ -23,7 +25,7 @@ impl Property for C10 {
          oracle = exact partial evaluation of every parametric function at p; non-trivial = a parameter multiplied with a decision variable; distinct = sha256(instance, parameter ids, assignment)"
     }
     fn required_labels(&self) -> Vec<String> {
-        ["extras", "missing", "complete", "param-in-constraint", "param-in-objective", "param-times-variable", "roundtrip", "removed-constraint", "hints", "regime=general", "regime=dyadic", "big-sorted-function", "parameter-id-twice-in-sorted-list", "missing+extra-between-declared-ids"].iter().map(|s| s.to_string()).collect()
+        ["extras", "missing", "complete", "param-in-constraint", "param-in-objective", "param-times-variable", "roundtrip", "removed-constraint", "hints", "regime=general", "regime=dyadic", "big-sorted-function", "parameter-id-twice-in-sorted-list", "missing+extra-between-declared-ids", "sweep=high-multiplicity"].iter().map(|s| s.to_string()).collect()
     }
     fn cases(&self, tier: Tier) -> usize {
         match tier {
@@ -33,6 +35,47 @@ impl Property for C10 {
     }
     fn tape_max(&self) -> usize {
         640
+    }
+    fn sweep_len(&self, _tier: Tier) -> usize {
+        MULT.len()
+    }
+    fn sweep_description(&self) -> Option<String> {
+        Some("a polynomial objective with one parameter occurring 5, 7, 9, 255, 256, 257 and 300 times inside one monomial (any degree), instantiated at 2 and at 0.5".into())
+    }
+    fn sweep_case(&self, _tier: Tier, i: usize, ctx: &mut Ctx) -> PResult {
+        let m = MULT[i];
+        ctx.label("sweep=high-multiplicity");
+        ctx.nontrivial();
+        ctx.fp_dbg(&("high-multiplicity", m));
+        ctx.sample_with(|| json!({"sweep": "parameter with multiplicity", "multiplicity": m}));
+        for pv in [2.0f64, 0.5] {
+            let mut pi = v1::ParametricInstance::default();
+            pi.sense = crate::model::SENSE_MIN;
+            let mut x = v1::DecisionVariable::default();
+            x.id = 1;
+            x.kind = KIND_CONTINUOUS;
+            pi.decision_variables.push(x);
+            let mut p = v1::Parameter::default();
+            p.id = 2;
+            pi.parameters.push(p);
+            let mut ids = vec![2u64; m];
+            ids.push(1);
+            let obj = crate::mk::fpoly(crate::mk::polynomial(vec![(ids, 3.0), (vec![1], 1.0), (vec![2, 2], 0.25)]));
+            pi.objective = Some(obj.clone());
+            let mut params = v1::Parameters::default();
+            params.entries.insert(2, pv);
+            let out = match pi.clone().with_parameters(params) {
+                Ok(o) => o,
+                Err(e) => return fail("C10/high-multiplicity/err", format!("with_parameters failed for a parameter of multiplicity {m}: {e:#}")),
+            };
+            let pstate = crate::mk::state([(2u64, pv)]);
+            check_partial("C10/high-multiplicity/objective", &obj, &out.objective.clone().unwrap_or_else(|| crate::mk::fconst(0.0)), &pstate, Regime::Dyadic).map_err(|mut f| {
+                f.message = format!("parameter of multiplicity {m} instantiated at {pv}: {}", f.message);
+                f.message.truncate(600);
+                f
+            })?;
+        }
+        Ok(())
     }
 
     fn run(&self, t: &mut Tape, ctx: &mut Ctx) -> PResult {
